@@ -20,7 +20,7 @@ func init() {
 			"StartMain < events handler < schedule manager; (R5) Synchronization tasks are head tasks of `main` carrying the monitor id and " +
 			"executeHookOnSynchronization of their binding; (R6) a Synchronization for v0 hooks or with executeHookOnSynchronization=false " +
 			"never reaches handleRunHook; (R7) the combine stop predicate refuses Synchronization tasks that must not run; (R8) schedules " +
-			"are registered only by the EnableScheduleBindings task and schedule links exist only while enabled. NOT decided: the order of " +
+			"are registered only by the EnableScheduleBindings task and schedule links exist only while enabled. (R10) every iteration over a hook's kubernetes bindings yields that binding's Synchronization info unless the enable task fails. NOT decided: the order of " +
 			"actual executions (needs C03/C05 behaviour), at-least-once under retries.",
 		Run: runC06,
 	})
